@@ -422,6 +422,13 @@ pub fn run_scenarios(path: &str, out_prefix: &str, server_bin: &str, workdir: &s
                 load_handle = Some(std::thread::spawn(move || closed_loop(port, c, r, sd, srv2, stop2, pr)));
             }
         }
+        // ---- health-check connections that are opened and then just held (nothing sent, nothing read, not closed) until the
+        //      process has exited: a peer that says nothing must not keep a worker
+        let mut _held: Vec<TcpStream> = vec![];
+        if let (Some(hp), Some(k)) = (sp.hc_port, sc["hc_hold"].as_u64()) {
+            for _ in 0..k { if let Ok(s) = TcpStream::connect_timeout(&format!("127.0.0.1:{}", hp).parse().unwrap(), Duration::from_millis(500)) { _held.push(s); } }
+            std::thread::sleep(Duration::from_millis(150));
+        }
         // ---- signal: idle / during load / during an open-loop flood
         let mut flood_handles = vec![];
         let flood_stop = Arc::new(AtomicBool::new(false));
